@@ -107,6 +107,11 @@ def cases(tier, seed):
             if o.get('n_components', 0) == 2 and data.SPECS.get(dsn, (3,))[0] < 3:
                 continue
             out.append(('orthogonal/%s/%d/%s' % (name, i, dsn), ('orth', name, i, dsn, seed)))
+    # MMC run to its own convergence (default max_iter / tol) on a fixed family of further datasets under genuine rotations:
+    # a frame-dependent stopping rule only shows on the few training sets where the stop falls between accepted steps
+    nfam = 48 if tier == 'quick' else 240
+    for k in range(0, nfam, 4):
+        out.append(('orthogonal_converged/MMC/%d-%d' % (k, k + 3), ('orthconv', 'MMC', list(range(k, k + 4)), 'fam', seed)))
     if tier == 'thorough':
         for i, (name, o) in enumerate(ROT_LEARNERS):
             out.append(('orthogonal/%s/%d/S5' % (name, i), ('orth', name, i, 'S5', seed)))
@@ -114,11 +119,46 @@ def cases(tier, seed):
 
 
 def cost(spec):
-    return {'orth': 6, 'swap': 4}.get(spec[0], 1) * {'MMC': 5, 'LSML': 4, 'ITML': 3}.get(spec[1], 1)
+    return {'orth': 6, 'swap': 4, 'orthconv': 8}.get(spec[0], 1) * {'MMC': 5, 'LSML': 4, 'ITML': 3}.get(spec[1], 1)
+
+
+def run_orthconv(spec):
+    _, name, ks, _, seed = spec
+    viol, sigs = [], set()
+    evals = 0
+    worst = 0.0
+    for k in ks:
+        d = 3 + (k % 3)
+        X, y = data._points(d, (6, 7, 5), 19000 + k)
+        pairs_idx, ypairs, _, _, _ = data._tuples(X, y)
+        Qs = [pyth(d, 3, 4, 5), pyth(d, 5, 12, 13, 0, d - 1), pyth(d, 3, 4, 5, 1, 2).dot(pyth(d, 5, 12, 13))]
+        for init in ('identity', 'covariance'):
+            ref = ml_MMC(init=init).fit(X[pairs_idx], ypairs)
+            M0 = ref.get_mahalanobis_matrix()
+            for qi, Q in enumerate(Qs):
+                X2 = X.dot(Q.T)
+                e2 = ml_MMC(init=init).fit(X2[pairs_idx], ypairs)
+                evals += 1
+                M2 = e2.get_mahalanobis_matrix()
+                devM = float(np.abs(M2 - Q.dot(M0).dot(Q.T)).max() / max(np.abs(M0).max(), 1e-300))
+                worst = max(worst, devM / 1e-6)
+                sigs.add(('orthconv', k, init, qi, ref.n_iter_))
+                if devM > 1e-6:
+                    viol.append(V('MMC.fit', 'orthogonal', 'MMC(init=%r) run to convergence on family member %d: rotating the points changes the learned '
+                                  'matrix by %.3g relative (n_iter_ %d vs %d)' % (init, k, devM, ref.n_iter_, e2.n_iter_), ['orthogonal', 'converged']))
+    return dict(evals=evals, sigs=sigs, viol=viol, headroom={'orthogonal_converged_mmc': worst},
+                sample={'relation': 'orthogonal map, MMC with default budget', 'family members': ks})
+
+
+def ml_MMC(**kw):
+    import metric_learn
+    return metric_learn.MMC(**kw)
 
 
 def run_case(spec):
     warnings.simplefilter('ignore')
+    if spec[0] == 'orthconv':
+        return run_orthconv(spec)
     kind, name = spec[0], spec[1]
     dsn, seed = spec[-2], spec[-1]
     ds = data.dataset('R', seed) if dsn == 'R' else data.dataset(dsn)
